@@ -508,6 +508,26 @@ pub fn history_inputs(count: usize) -> Vec<String> {
     ] {
         out.push(s.to_string());
     }
+    // long literals of every scanner, each in a form that ends well and in a form that fails part
+    // way (a scanner that switches to reusable scratch storage above a size threshold and returns
+    // early on an error leaves the storage dirty for the next call on the thread)
+    let rep = |u: &str, k: usize| u.repeat(k);
+    for (ok, bad) in [
+        (format!("x='{}'x;", rep("53415320", 12)), format!("x='{}4O'x;", rep("53415320", 12))),
+        (format!("x=\"{}\"x;", rep("4C,45,", 30) + "58"), format!("x=\"{}\"x;", rep("4C,45,", 30) + "5")),
+        (format!("x='{}';", rep("it''s ", 40)), format!("x='{}", rep("it''s ", 40))),
+        (format!("x=\"{}\";", rep("a\"\"b&v. ", 30)), format!("x=\"{}", rep("a\"\"b&v. ", 30))),
+        (format!("x={};", rep("12345678", 12)), format!("x={}e;", rep("12345678", 12))),
+        (format!("x=0{}x;", rep("f", 15)), format!("x=0{}x;", rep("f", 70))),
+        (format!("%let a=%str({});", rep("%'a%)", 40)), format!("%let a=%str({}", rep("%'a%)", 40))),
+        (format!("{}=1;", rep("name_", 6)), format!("{}=1;", rep("name_\u{e9}", 30))),
+        (format!("%put &{}.;", rep("v", 32)), format!("%put {}", rep("&", 300))),
+        (format!("/*{}*/", rep("c ", 200)), format!("/*{}", rep("c ", 200))),
+        (format!("datalines;\n{}\n;", rep("1 2 3\n", 60)), format!("datalines;\n{}", rep("1 2 3\n", 60))),
+    ] {
+        out.push(ok);
+        out.push(bad);
+    }
     out.sort();
     out.dedup();
     let _ = hash64(&0u8);
